@@ -52,7 +52,7 @@ VARIABLES
     lost,       \* values dropped without callback otherwise (never allowed)
     slack,      \* C01: cost added by in-place updates / lowered max since the last admission
     errSeen,    \* some public call returned an error
-    orphans,    \* wait ids whose marker was destroyed unreleased (nobody will ever release them)
+    orphans,    \* wait ids whose marker was destroyed unreleased (nobody will ever release them): always empty since fix D6
     kf,         \* known-finding signatures that occurred in this behaviour (see known_findings.json)
     gh          \* property ghosts: [want, fits, seqOK, badcb, cleared, lookups, drops, rejs, condv, vcost]
 
@@ -520,12 +520,17 @@ WaitSend(c) ==
     /\ UNCH_kf
     /\ gh' = GhCall(gh)
 
-\* entering wg.wait(): returns at once if the marker was already released
+\* entering wg.wait(): returns at once if the marker was already released.  Sync: the processor raises a flag when it
+\* stops and the waiter looks at that flag after queueing its marker -- if it is up, nobody will take the marker out
+\* any more and wait() returns without blocking (fix D6; the flag is exactly proc.pc = "exited").
 WaitBlock(c) ==
     /\ cli[c].pc = "wait_block"
     /\ \/ /\ c \in wdone /\ wdone' = wdone \ {c}
           /\ Done(c, "wait", OOk) /\ cli' = [cli EXCEPT ![c] = IdleCli]
-       \/ /\ cli' = [cli EXCEPT ![c].pc = "waiting"] /\ NoRes /\ UNCHANGED wdone
+       \/ /\ Flavor = "sync" /\ proc.pc = "exited" /\ c \notin wdone /\ UNCHANGED wdone
+          /\ Done(c, "wait", OOk) /\ cli' = [cli EXCEPT ![c] = IdleCli]
+       \/ /\ ~(Flavor = "sync" /\ proc.pc = "exited")
+          /\ cli' = [cli EXCEPT ![c].pc = "waiting"] /\ NoRes /\ UNCHANGED wdone
     /\ NoCb /\ UNCH_store /\ UNCH_pol /\ UNCH_life /\ UNCH_ghost
     /\ UNCHANGED <<buf, clearQ, stopQ, orphans, proc, now, met>>
     /\ UNCH_kf
@@ -818,13 +823,14 @@ PStop(c) ==
             /\ UNCHANGED stopQ
        ELSE /\ stopQ > 0 /\ stopQ' = 0 /\ UNCHANGED cli
     /\ proc' = [pc |-> "exited"]
-    /\ orphans' = orphans \cup BufWaits
-    /\ kf' = IF BufWaits # {} THEN kf \cup {"D6"} ELSE kf
-    /\ UNCHANGED conf
+    \* what is still buffered is dropped by the processor before it goes; a Wait marker releases its waiter when it is
+    \* dropped (fix D6: it used to be destroyed with the channel, or not at all, and the waiter blocked for ever)
+    /\ wdone' = wdone \cup BufWaits
+    /\ UNCHANGED <<orphans, kf, conf>>
     /\ dropped' = dropped \cup BufVals
     /\ buf' = <<>> /\ clearQ' = 0
     /\ NoRes /\ NoCb /\ UNCH_store /\ UNCH_pol /\ UNCH_life
-    /\ UNCHANGED <<wdone, now, met, accepted, owner, lost, errSeen>>
+    /\ UNCHANGED <<now, met, accepted, owner, lost, errSeen>>
     /\ UNCHANGED gh
 
 \* the policy worker takes its stop signal (sync: rendezvous with closer c; async: from its slot)
